@@ -217,6 +217,10 @@ class Ctx:
                 raise AnalysisError('endpats has no pattern for %r' % q)
             out[role] = endpats[q].source
         fmap = vals['fstring_pattern_map']
+        if isinstance(fmap, dict) and not all(isinstance(k, str) and isinstance(v, str) for k, v in fmap.items()):
+            raise AnalysisError('the f-string pattern map of the token collection does not map prefix+quote strings to quote '
+                                'strings any more (values: %s): the lexical model of the tokenizer cannot be built'
+                                % sorted({type(v).__name__ if not hasattr(v, 'cls') else str(getattr(v, 'cls', v)) for v in fmap.values()})[:3])
         out['fstring_prefixes'] = {k[:-len(v)] for k, v in fmap.items()} if isinstance(fmap, dict) else set()
         out['always_break_tokens'] = vals['always_break_tokens']
         return out
